@@ -28,6 +28,16 @@ CLAIMED = {
             "Generated names, related pairs/triples, pools, wire contexts and constructor programs are checked against an independent canonical-order / case-folded-equality model, a wire round trip at arbitrary offsets with and without compression, a text round trip for host-style names, and the 255/63 limits after every constructor step. Sampling, not proof: it reports how many distinct non-trivial cases stood behind the verdict.",
             "Trusts the harness's reference model (refm/canon.rs, ~60 lines from RFC 4034 §6.1) and proptest's generators; text clause limited to the alphabet the statement names.",
             "DESIGN.md §7 C04"),
+    "C10": ("exploration",
+            "property-based testing (proptest) + exhaustive RFC 4592 example sweep: generated zones × queries through the real Catalog, differential against an independent RFC 1034 §4.3.2 / RFC 4592 reference model",
+            "Generated zones over a small universe (hosts, ENTs, wildcards at several depths, CNAME chains/loops, delegations with/without glue and DS, occluded data; unsigned / NSEC / NSEC3±opt-out) are rendered into hickory's InMemoryZoneHandler and, independently, into the harness's reference model; every query name in and around the zone × 9 qtypes × DO goes in as bytes through Request::from_bytes → Catalog::handle_request → ResponseHandle and the response is read by the harness's own wire reader. Compared: rcode, AA, answer set incl. in-zone CNAME chain and synthesised owners, no data from below a cut, referral shape, SOA on negatives, NXDOMAIN vs NODATA (ENT), RRSIG/denial presence with DO.",
+            "Trusts refm/auth_ref.rs (self-checked against the outcomes RFC 4592 §2.2.1 lists). Ten known findings (three are the RFC 4592 gaps upstream #[ignore]s) are excluded by signature; every query is judged and any deviation outside those signatures is a VIOLATION. Additional-section contents, record order and TTLs of synthesised records are not asserted.",
+            "DESIGN.md §7 C10"),
+    "C11": ("exploration",
+            "property-based testing (proptest): generated catalogs × ACLs × request byte strings (valid, mutated, hostile, random) through the real front door; oracle = decision table from the statement (response count, ID/question echo, rcode ∈ allowed set, longest-suffix zone marker, probe query after every hostile request)",
+            "Catalogs with nested/sibling/root zones and chained handlers, allow/deny sets with nested v4/v6 prefixes, UDP/TCP; requests drawn from valid queries, every opcode, EDNS versions, QR=1, runts, QDCOUNT 0/2, garbage, byte mutations and random bytes go through VerifFrontDoor::handle. Responses sent must be 0 for runts/responses and exactly 1 otherwise with QR=1, the request's ID and (when it parsed) question; rcode within the set of codes whose condition holds; TXT marker = longest-suffix origin; no panic; a fixed probe still answered afterwards.",
+            "Trusts refm/frontdoor_ref.rs (ACL model from the access.rs rustdoc). Where the statement fixes no precedence between gates the oracle accepts the set.",
+            "DESIGN.md §7 C11"),
     "C16": ("exploration",
             "schedule enumeration + property-based testing (proptest) on a simulated runtime: every arrival order of ≤4 forged/genuine datagrams enumerated, longer schedules and multiplexer op histories sampled; oracle = validity predicate on which datagram may complete a query + ID-routing model",
             "The real UdpClientStream runs on the harness's discrete-event runtime; every datagram is built from the bytes hickory actually sent. All sequences of ≤4 datagrams over 9 forged/genuine kinds × 0x20 on/off are enumerated; longer schedules (≤3 transmissions, ≤10 datagrams each) are sampled. Ok ⇒ byte-identical to a delivered datagram from the queried addr:port with the wire ID and asked questions (case-exact under 0x20), among the first three read on its socket; otherwise error/timeout. The real DnsMultiplexer is polled by hand over a scripted stream: in-flight IDs pairwise distinct, responses routed by ID only, unknown IDs dropped, close/error fails every pending request, timeouts reported.",
